@@ -113,6 +113,7 @@ MCVS = ["OHx", "OB.", "VTx", "ZZZ", "6W[", "abc", "OM=", "KCO"]
 @st.composite
 def dump_cases(draw):
     ns = draw(st.integers(0, 8))
+    layout = draw(st.booleans())
     streams = []
     base = draw(st.sampled_from([0, 1000, 2 ** 40]))
     # time scale: with seconds between events the clock differences exceed 32 bits
@@ -131,6 +132,9 @@ def dump_cases(draw):
                 evs.append(T.ev(mcv, base + c, pl))
         depth = draw(st.integers(0, 2))
         path = "/".join(["d%d" % draw(st.integers(0, 2)) for _ in range(depth)] + ["s%02d" % i])
+        if layout:
+            # libovni's layout, the same pid/tid numbers under different looms
+            path = "loom.node%d.0/proc.7/thread.%d" % (i % 3, 7 + i // 3)
         streams.append({"loom": "n.0", "pid": 1, "tid": 100 + i, "app": 1, "path": path, "events": evs,
                         "cpus": [[0, 0]] if i == 0 else None})
     order = list(draw(st.permutations(list(range(ns)))))
@@ -226,12 +230,15 @@ def emu_cases(draw):
     marks = {"0": {"title": "dye", "chan_type": "single"}}
     base = 10 ** 6
     scale = draw(st.sampled_from([1, 1, 1, 2 ** 31 + 3, 5 * 10 ** 9]))   # seconds apart: differences beyond 32 bits
+    samepid = draw(st.booleans())
     for li in range(nlooms):
         host = hosts[0] if (share and li == 1) else hosts[li]
         lname = "%s.%d" % (host, li)
         if host not in offsets and draw(st.integers(0, 3)) != 0:
             offsets[host] = draw(st.sampled_from([0, -40, 40, -5000, 5000, 123456, -7]))
         nth = draw(st.integers(1, 3))
+        if samepid:
+            tid = 10        # the same pid/tid numbers appear in every loom (processes of different nodes)
         for ti in range(nth):
             tid += 1
             k = draw(st.integers(0, 8))
@@ -244,11 +251,16 @@ def emu_cases(draw):
                 evs.append(T.mark("=", clk, i + 1, 0))
             clk += gaps[k] * scale
             evs.append(T.plain("OHe", clk))
-            s = {"loom": lname, "pid": 100 + li, "tid": tid, "app": 1, "events": evs,
+            s = {"loom": lname, "pid": 100 if samepid else 100 + li, "tid": tid, "app": 1, "events": evs,
                  "extra": {"ovni.mark": marks}}
             if ti == 0:
                 s["cpus"] = [[0, 0]]
             streams.append(s)
+    if draw(st.integers(0, 3)) == 0:
+        # a stream of another part type without events (header only): ignored by the emulator
+        streams.append({"loom": streams[0]["loom"], "pid": streams[0]["pid"], "tid": 999, "app": 1, "events": [],
+                        "path": draw(st.sampled_from(["aux/empty", "loom.%s/aux" % streams[0]["loom"], "zzz"])),
+                        "extra": {"ovni.part": "aux"}})
     order = list(draw(st.permutations(list(range(len(streams))))))
     use_offsets = (offsets or None) if draw(st.integers(0, 4)) != 0 else None
     return {"streams": streams, "offsets": use_offsets, "mkorder": order}
